@@ -1,5 +1,5 @@
 CONSTANTS
-  Contracts = {"timelock", "multisig", "oraclelock", "refundlock", "voting", "inc", "sum", "erc20", "testcases", "sft"}
+  Contracts = {"timelock", "multisig", "oraclelock", "refundlock", "voting", "inc", "sum", "erc20", "testcases", "sft", "payer"}
   ArgClasses = {"valid", "valid2", "over", "missing", "garbage", "short"}
   AmtClasses = {"zero", "low", "some", "big"}
   GasClasses = {"zero", "small", "exact", "enough"}
